@@ -337,6 +337,11 @@ def main(argv):
     print("%s %s seed=%d: %d evaluations, %d distinct non-trivial, %d jobs, %d excluded-known, "
           "%d violation signature(s), %.1fs" % (pid, tier, seed, evaluations, distinct, len(jobs),
                                                 excluded, viol, wall))
+    if not viol and not harness_errors and (evaluations == 0 or distinct < 2 or labels.get("outside-domain", 0) > evaluations):
+        # a run that judged (almost) nothing is a broken check, not a pass
+        print("HARNESS-ERROR property=%s vacuous run: %d evaluations, %d distinct non-trivial, %d generated cases outside the domain" % (
+            pid, evaluations, distinct, labels.get("outside-domain", 0)))
+        return 2
     if harness_errors:
         for j, tb in harness_errors[:3]:
             print("HARNESS-ERROR in job %r:\n%s" % ({k: v for k, v in j.items() if k != "cases"}, tb))
